@@ -38,6 +38,15 @@ StateTags(E, O) ==
     \cup MapTags("conns", ConnFields, E.conns, O.conns)
     \cup {Tag("st", f, "", "") : f \in {g \in Scalars : E[g] # O[g]}}
 
+(* C02: the record of a user OTHER than the issuer of the command differs from what the specification computes *)
+(* (identity, modes, away state) - somebody was modified by a connection that is not his own                    *)
+ForeignTags(c, pre, E, O) ==
+    LET me == IF c \in DOMAIN pre.conns /\ pre.conns[c].nick # <<>> THEN {pre.conns[c].nick[1]} ELSE {}
+        mine == me \cup (IF c \in DOMAIN O.conns /\ O.conns[c].nick # <<>> THEN {O.conns[c].nick[1]} ELSE {})
+    IN IF \E n \in ((DOMAIN E.users) \cap (DOMAIN O.users)) \ mine :
+              \E f \in {"host", "uname", "real", "src", "modes", "away"} : E.users[n][f] # O.users[n][f]
+       THEN {Tag("st", "users", "foreign", "")} ELSE {}
+
 (* ---- output comparison (bags) ---- *)
 Count(q, m) == Cardinality({k \in DOMAIN q : q[k] = m})
 MissingMsgs(exp, obs) == {m \in ToSet(exp) : Count(exp, m) > Count(obs, m)}
@@ -105,6 +114,9 @@ Ctx(S, c, cmd) ==
          preconfJoin |-> \E x \in joinChans : x \in DOMAIN S.chans /\ S.chans[x].preconf,
          hidden |-> hidden,
          pwcfg |-> S.cfg.password # <<>> \/ (\E k \in DOMAIN S.cfg.users : S.cfg.users[k].pass # <<>>),
+         quota |-> S.cfg.max_joins # <<>>,
+         dflt |-> S.cfg.default_modes # {},
+         cfgusers |-> S.cfg.users # <<>>,
          masky |-> maskyChans # {}
                    \/ (ok /\ v = "OPER" /\ \E k \in DOMAIN S.cfg.operators : S.cfg.operators[k].mask # <<>>)
                    \/ (~authed /\ \E k \in DOMAIN S.cfg.users : S.cfg.users[k].mask # <<>>)
@@ -135,6 +147,7 @@ Owns(P, x, g) ==
                       \/ (IsSt(g) /\ g.a = "users" /\ g.b \in {"domain", "host", "src", "uname"}
                                   /\ (v \in (RegVerbs \cup Endings \cup {"NICK"})) /\ ~(x.authed /\ v = "NICK" /\ g.b = "src"))
                       \/ (IsSt(g) /\ g.a = "conns" /\ g.b \in {"authed", "nick", "hasq"})
+                      \/ (IsSt(g) /\ g.a = "users" /\ g.b = "foreign" /\ v \notin {"KILL", "DIE", "SQUIT"})
                       \/ (~x.authed /\ IsOut(g) /\ g.a = "r")
                       \/ (~x.authed /\ IsOut(g) /\ g.b \in {"433", "001"})
       [] P = "C03" -> ~x.authed /\ v \notin Faults /\
@@ -192,5 +205,13 @@ Owns(P, x, g) ==
                                                        "CONNECT", "REHASH", "RESTART"} /\ (IsSt(g) \/ IsOut(g)))
                       \/ (~x.authed /\ v \in RegVerbs /\ IsOut(g) /\ g.b \in WelcomeCodes)
                       \/ (~x.authed /\ v \in RegVerbs /\ x.pwcfg /\ ((IsOut(g) /\ g.b \in {"464", "001"}) \/ (IsSt(g) /\ g.a = "conns" /\ g.b = "pass")))
+                      \* each documented setting governs behaviour: the joins quota, default user modes, predefined users, operators, channels
+                      \/ (x.authed /\ ~x.perr /\ v = "JOIN" /\ x.quota /\ ((IsOut(g) /\ g.b \in {"405", "JOIN"}) \/ Membership(g)))
+                      \/ (~x.authed /\ v \in RegVerbs /\ x.dflt /\ IsSt(g) /\ ((g.a = "users" /\ g.b = "modes") \/ g.a \in {"wallops", "invCnt", "operCnt"}))
+                      \/ (~x.authed /\ v \in RegVerbs /\ x.cfgusers /\ ((IsSt(g) /\ g.a = "conns" /\ g.b \in {"cfgreg", "authed"})
+                                                                   \/ (IsSt(g) /\ g.a = "users" /\ g.b \in {"modes", "domain"})
+                                                                   \/ (IsOut(g) /\ g.b \in {"ERROR", "EOF"})))
+                      \/ (x.authed /\ ~x.perr /\ v = "OPER" /\ (IsOut(g) \/ (IsSt(g) /\ g.a = "users" /\ g.b = "modes")))
+                      \/ (x.preconfJoin /\ (Membership(g) \/ (IsOut(g) /\ g.b \in {"332", "353", "JOIN", "475", "474", "473", "471"})))
       [] OTHER -> FALSE
 =============================================================================
